@@ -83,6 +83,13 @@ META = [
 META_PIPE = ["|", "||", "a|b"]
 MARKERS = ["WEBVTT", "<sami", "<SAMI>", "</tt>", "</TT>", "Scenarist_SCC V1.0"]
 
+# long texts: a run without any blank that is longer than a typical source / display line, and
+# a long sentence of ordinary words
+LONG = ["https://example.com/" + "path-segment/" * 11 + "index.html",
+        "\u65e5\u672c\u8a9e\u306e\u5b57\u5e55" * 25,
+        "x" * 130, "word " * 40 + "end", ("lorem ipsum dolor sit amet " * 6).strip(),
+        "A" * 79 + " " + "B" * 81]
+
 WORDS = ["a", "I", "Hello", "world", "café", "naïve", "αβγ", "中文",
          "日本語", "\U0001F600", "é", "¿qué?", "x1", "3.14", "don't",
          "rock'n'roll", "♪", "A&B", "1<2", "Mr.", "end.", "UPPER", "åäö"]
